@@ -407,11 +407,29 @@ def r4_recursion(ctx):
                 kind = "nested dictionary"
             elif isinstance(f, ast.Name) and any(a in ("val",) for a in args):
                 kind = "nested dictionary"
+            if kind is None and any(".parent" in a for a in args):
+                kind = "ancestor chain"
             if kind is None:
-                # self-call with arguments derived by arithmetic / advancing iterators: one call per element
-                r.violation("C19.R4", fn.qual, f"data-sized recursion `{src(c)[:70]}`",
-                            f"`{src(c)[:90]}`: {fn.name} calls itself once per consumed element (no structural measure such as the ancestor "
-                            f"chain): a location with more blocks than the interpreter's recursion limit raises RecursionError", (fn, c))
+                # one call per consumed element of a sequence: the callee advances an iterator it hands on (`next(it)` ... `f(it)`),
+                # or hands on the rest of a sequence (`xs[1:]`, `first, *rest = xs` ... `f(rest)`)
+                params = set(fn.params)
+                advanced = {dotted(x.args[0]) for x in calls_in(fn.node, shallow=False)
+                            if isinstance(x.func, ast.Name) and x.func.id == "next" and x.args}
+                rests = {t_.value.id for st_ in ast.walk(fn.node) if isinstance(st_, ast.Assign) for tg_ in st_.targets
+                         if isinstance(tg_, (ast.Tuple, ast.List)) for t_ in tg_.elts if isinstance(t_, ast.Starred) and isinstance(t_.value, ast.Name)}
+                sized = False
+                for a_ in c.args:
+                    if isinstance(a_, ast.Name) and (a_.id in advanced & params or a_.id in rests):
+                        sized = True
+                    if isinstance(a_, ast.Subscript) and isinstance(a_.slice, ast.Slice) and a_.slice.lower is not None and dotted(a_.value) in params:
+                        sized = True
+                if sized:
+                    r.violation("C19.R4", fn.qual, f"data-sized recursion `{src(c)[:70]}`",
+                                f"`{src(c)[:90]}`: {fn.name} calls itself once per consumed element (no structural measure such as the ancestor "
+                                f"chain): a location with more blocks than the interpreter's recursion limit raises RecursionError", (fn, c))
+                else:
+                    r.note(f"C19.R4: {fn.qual} `{src(c)[:70]}`: self-call of a form this rule does not classify (neither ancestor chain / "
+                           f"delegation nor one call per consumed element); not decided")
             else:
                 r.ok("C19.R4", fn.qual, f"recursion `{src(c)[:50]}`: {kind}", (fn, c))
     r.floor("C19.R4", "self-referential calls classified", n, 8)
